@@ -23,7 +23,7 @@ def opRemovePIs : DocM Unit := do
 
 def opRemoveAnonSymbols : DocM Unit := do
   updateEtree
-  setRoot (Cleanup.removeAnonSymbols (← getRoot))
+  setRoot (Cleanup.removeAnonSymbolsH (← getRoot))
 
 def opRemoveTitleMetaDesc : DocM Unit := do
   updateEtree
